@@ -160,7 +160,7 @@ def plan(prop, tier):
                 scen.with_bounds({"nodes": [{"id": 1, "kind": "concat", "ups": []}], "root": 1}, "concat", **eb)]
         fams.append(("edge", edge, None))
         # the sources of the crate by themselves (the properties speak about "every source and operator")
-        fams += [f for f in plan("C15", tier) if f[0] in ("fromiter", "fromiter_serr", "fromiter_r2")]
+        fams += [f for f in plan("C15", tier) if f[0] in ("fromiter", "fromiter_serr", "fromiter_r2", "fromiter_r2_serr")]
         fams += [f for f in plan("C16", tier) if f[0] in ("interval_p1_s1", "interval_p1_s2", "interval_serr")]
         if prop == "C01":
             # sinks of a shared source that make each other attach / pull / detach from inside their handlers
@@ -330,6 +330,9 @@ def plan(prop, tier):
                                    for xs in lens], None),
                 ("fromiter_r2", [scen.with_bounds(from_iter_g(xs), "from_iter", maxTop=3 if q else 4, maxPull=4,
                                                   maxReact=2) for xs in ([1, 2], [1, 2, 3], None)], None),
+                # ... Pull, then disposal with Error, in one handler
+                ("fromiter_r2_serr", [scen.with_bounds(from_iter_g(xs), "from_iter", maxTop=3, maxPull=3, maxReact=2,
+                                                       sinkErr=True) for xs in ([1, 2, 3], None)], None),
                 ("fromiter_2sinks", [scen.with_bounds(from_iter_g(xs), "from_iter", sinks=["probe", "probe"],
                                                       maxTop=4 if q else 5, maxPull=2) for xs in ([1], [1, 2], None)], None)]
         return fams
